@@ -482,7 +482,12 @@ func (b *batch) probe(limit int, held int, requireFill bool, sigTail string, wit
 		sigTail += "/probe-on-events"
 	}
 	b.note("over-limit probe %s -> %d forwarded=%v", o.id, o.status, o.forwarded)
-	if o.forwarded || o.status != 429 {
+	if o.forwarded && o.status == 429 {
+		// refused towards the client but proxied all the same (and the deferred release then frees a slot it never took)
+		b.violated = true
+		b.env.r.Violation("C05/e2e/answered-429-but-forwarded/resource="+res,
+			fmt.Sprintf("limit %d and %d streams in flight: one more request on resource %q was answered 429 and nevertheless forwarded to the upstream", limit, limit, res), witness())
+	} else if o.forwarded || o.status != 429 {
 		b.violated = true
 		b.env.r.Violation("C05/e2e/admitted-over-limit/"+sigTail,
 			fmt.Sprintf("limit %d and %d streams admitted under it still in flight: one more request was answered %d (forwarded=%v) instead of 429 (%s)", limit, limit, o.status, o.forwarded, sigTail), witness())
